@@ -318,17 +318,19 @@ Module Ex.
     DV1 (flat_map (fun m => [sim (e m 0); sim (e m 1)]) (seq 0 6)).       (* index m*2 + g *)
   Definition pA : part := mkPart 0 [0; 0; 0] [(1, [1%N]); (1, [1%N])] [[(0, 0)]; [(1, 0)]; [(0, 0)]].
   Definition pB : part := mkPart 1 [0; 0; 0] [(1, [1%N; 0%N]); (1, [1%N])] [[(0, 0)]; [(1, 0)]; [(0, 1)]].
-  Definition pds : list (part * pdata) := [(pA, data exp_A); (pB, data exp_B)].
+  Definition pds : list (part * pdata) := Eval vm_compute in [(pA, data exp_A); (pB, data exp_B)].
   Definition den (k : key) : N := match outcome_to_int pyint0_ref k with Some n => n | None => 0%N end.
 End Ex.
 
 (* the basis really is the six-map cx basis, all quantities are rational (no 1/sqrt 2 left) *)
+Definition all_rational (V : list (list (Q * Q))) : bool :=
+  forallb (fun row => forallb (fun x => Qeq_bool (snd x) 0) row) V.
 Example c01_ex_basis :
   Ex.C = [[1 # 2; 1 # 2; 1 # 2; - (1 # 2); 1 # 2; - (1 # 2)]%Q] /\
   map Ex.s0_of (seq 0 6) = [[OSdg]; [OS]; [OSdg; OMeas]; [OSdg; OMeas]; []; [OZ]] /\
   map Ex.s1_of (seq 0 6) = [[OH; OSdg; OH]; [OH; OS; OH]; []; [OH; OZ; OH]; [OH; OSdg; OMeas; OH]; [OH; OSdg; OMeas; OH]] /\
-  forallb (fun i => Qeq_bool (Ex.irr (Ptm.mmul QR (ptm_unitary2 QR U_cx) Ex.prepared) i) 0) (seq 0 16) = true.
-Proof. vm_compute. repeat split; reflexivity. Qed.
+  all_rational (Ptm.mmul QR (ptm_unitary2 QR U_cx) Ex.prepared) = true.
+Proof. split; [|split; [|split]]; vm_compute; reflexivity. Qed.
 
 (* P1 and P2+P3 hold for this instance, and the uncut values are <ZZ> = 1, <XX> = 1, <IZ> = 0 *)
 Example c01_hyps_satisfiable :
@@ -336,13 +338,13 @@ Example c01_hyps_satisfiable :
      (Ex.Ev k == sumQ (map (fun ids => (coeff_prod Ex.C ids * Ex.term_ ids k)%Q) (all_maps (map (@length Q) Ex.C))))%Q) /\
   (forall ids k, In ids (all_maps (map (@length Q) Ex.C)) -> k < 3 ->
      (Ex.term_ ids k == part_prod Ex.L Ex.E_ ids k)%Q) /\
-  Forall2 Qeq (map Ex.Ev (seq 0 3)) [1; 1; 0]%Q.
+  list_beq Qeq_bool (map Ex.Ev (seq 0 3)) [1; 1; 0]%Q = true.
 Proof.
   split; [|split].
   - intros [|[|[|k]]] Hk; [vm_compute; reflexivity..|lia].
   - intros ids k Hin Hk. vm_compute in Hin.
     repeat (destruct Hin as [<-|Hin]; [destruct k as [|[|[|k]]]; [vm_compute; reflexivity..|lia]|]). destruct Hin.
-  - vm_compute. repeat constructor.
+  - vm_compute. reflexivity.
 Qed.
 
 (* the bookkeeping hypotheses hold for this instance *)
@@ -352,7 +354,7 @@ Example c01_ex_bookkeeping :
   Forall2 (fun s c => exists cs, chosen_coeffs Ex.C (s_ids s) = Ok cs /\
                                  c = (coeff_value (total_weight Ex.W) (kappa_all Ex.C) (s_w s) cs, s_t s))
           (sort_samples Ex.W) Ex.cq /\
-  Forall2 Qeq (map fst Ex.cq) [1 # 2; 1 # 2; 1 # 2; - (1 # 2); 1 # 2; - (1 # 2)]%Q.
+  list_beq Qeq_bool (map fst Ex.cq) [1 # 2; 1 # 2; 1 # 2; - (1 # 2); 1 # 2; - (1 # 2)]%Q = true.
 Proof.
   split; [|split; [|split]].
   - intros v [<-|[]]. vm_compute. discriminate.
@@ -363,7 +365,7 @@ Proof.
     + intros ids Hin _. vm_compute in Hin. vm_compute. tauto.
   - unfold Ex.cq. change (sort_samples Ex.W) with (map (fun m => ([m], ((1 # 6)%Q, KExact))) (seq 0 6)).
     cbn [seq map]. repeat constructor; (eexists; split; [reflexivity|reflexivity]).
-  - vm_compute. repeat constructor.
+  - vm_compute. reflexivity.
 Qed.
 
 (* the simulated results satisfy the shape and exactness hypotheses: every decoded partition value equals the PTM
